@@ -216,6 +216,40 @@ func runC03(c *Ctx) {
 				}
 			}
 		}
+		// a table built by a constructor of the package from a map literal of rune → replacement (table[r] = repl for
+		// every entry, as long as the highest rune requires) is read as the indexed list it builds
+		synthTables := map[*ast.CompositeLit]bool{}
+		for ob, init := range inits {
+			bc, ok := ast.Unparen(init).(*ast.CallExpr)
+			if !ok || len(bc.Args) != 1 {
+				continue
+			}
+			bfn := calleeOf(rinfo, bc)
+			ml, isLit := ast.Unparen(bc.Args[0]).(*ast.CompositeLit)
+			if bfn == nil || bfn.Pkg() != rp.Types || !isLit {
+				continue
+			}
+			if _, isMap := rinfo.TypeOf(ml).Underlying().(*types.Map); !isMap || !tableBuilderStoresByKey(rp, bfn) {
+				continue
+			}
+			synth := &ast.CompositeLit{Lbrace: ml.Lbrace, Rbrace: ml.Rbrace}
+			okAll := true
+			for _, el := range ml.Elts {
+				kv, isKV := el.(*ast.KeyValueExpr)
+				if !isKV {
+					okAll = false
+					break
+				}
+				if _, isInt := constInt(rinfo, kv.Key); !isInt {
+					okAll = false
+				}
+				synth.Elts = append(synth.Elts, kv)
+			}
+			if okAll && len(synth.Elts) > 0 {
+				inits[ob] = synth
+				synthTables[synth] = true
+			}
+		}
 		var callerTables []*ast.CompositeLit
 		if tblParam != nil {
 			pidx := 0
@@ -250,6 +284,11 @@ func runC03(c *Ctx) {
 					}
 					if id, ok := ast.Unparen(tblArg).(*ast.Ident); ok {
 						if cl, ok := ast.Unparen(inits[rinfo.ObjectOf(id)]).(*ast.CompositeLit); ok {
+							callerTables = append(callerTables, cl)
+							tables = appendUniq(tables, id.Name)
+						}
+						// (a table built by a constructor from a map literal was replaced by the list it builds, see above)
+						if cl, ok := inits[rinfo.ObjectOf(id)].(*ast.CompositeLit); ok && synthTables[cl] {
 							callerTables = append(callerTables, cl)
 							tables = appendUniq(tables, id.Name)
 						}
@@ -1578,6 +1617,74 @@ func followReturns(p *packages.Package, fd *ast.FuncDecl, ce *cenv, depth int) (
 				}
 			}
 		}
+		// the last step chosen as a function value: escape := escaperFor(flag); return escape(x), nil — follow the
+		// selector with the constants known here, then the function it returns; a function that returns its own
+		// parameter stands for the argument
+		if call, ok := e.(*ast.CallExpr); ok && len(call.Args) == 1 && calleeOf(info, call) == nil {
+			if fid, ok := ast.Unparen(call.Fun).(*ast.Ident); ok {
+				if selCall, ok := ast.Unparen(den.deref(fid, pth.Env)).(*ast.CallExpr); ok {
+					if selFn := calleeOf(info, selCall); selFn != nil {
+						if sel := ce.decls[selFn]; sel != nil && sel.Body != nil {
+							sub := ce.child()
+							i := 0
+							for _, prm := range sel.Type.Params.List {
+								for _, nm := range prm.Names {
+									if i < len(selCall.Args) {
+										if v, ok := ce.eval(selCall.Args[i], pth.Env); ok {
+											sub.byObj[info.Defs[nm]] = v
+										}
+									}
+									i++
+								}
+							}
+							picked, why := followReturns(p, sel, sub, depth+1)
+							if why != "" {
+								return nil, why
+							}
+							resolved := len(picked) > 0
+							var via []followedReturn
+							for _, pk := range picked {
+								var target *types.Func
+								switch tv := ast.Unparen(pk.expr).(type) {
+								case *ast.Ident:
+									target, _ = info.Uses[tv].(*types.Func)
+								case *ast.SelectorExpr:
+									target, _ = info.Uses[tv.Sel].(*types.Func)
+								}
+								tfd := ce.decls[target]
+								if target == nil || tfd == nil || tfd.Body == nil {
+									resolved = false
+									break
+								}
+								var trs []followedReturn
+								if rs1, ok := tfd.Body.List[0].(*ast.ReturnStmt); ok && len(tfd.Body.List) == 1 && len(rs1.Results) == 1 {
+									// (a one-line function: what it returns, as written — the caller judges a call of the escaper)
+									trs = []followedReturn{{expr: ast.Unparen(rs1.Results[0]), env: map[types.Object]ast.Expr{}, in: tfd}}
+								} else {
+									var why string
+									trs, why = followReturns(p, tfd, ce.child(), depth+1)
+									if why != "" {
+										return nil, why
+									}
+								}
+								prms := paramObjs(info, tfd)
+								for _, tr := range trs {
+									if id, ok := ast.Unparen(tr.expr).(*ast.Ident); ok && len(prms) == 1 && info.ObjectOf(id) == prms[0] {
+										via = append(via, followedReturn{expr: call.Args[0], env: pth.Env, in: fd})
+									} else {
+										via = append(via, tr)
+									}
+								}
+							}
+							if resolved {
+								out = append(out, via...)
+								continue
+							}
+						}
+					}
+				}
+			}
+		}
 		out = append(out, followedReturn{expr: e, env: pth.Env, in: fd})
 	}
 	return out, ""
@@ -1761,4 +1868,49 @@ func (qt *quoteTracker) transitions(charName, ch, from string) []string {
 	}
 	sort.Strings(out)
 	return out
+}
+
+// tableBuilderStoresByKey: fn takes a map and returns a slice into which it stores every entry of the map at the
+// entry's key (for k, v := range m { t[k] = v }).
+func tableBuilderStoresByKey(p *packages.Package, fn *types.Func) bool {
+	info := p.TypesInfo
+	for _, fd := range allFuncDecls(p) {
+		if info.Defs[fd.Name] != types.Object(fn) || fd.Body == nil {
+			continue
+		}
+		prms := paramObjs(info, fd)
+		if len(prms) != 1 || prms[0] == nil {
+			return false
+		}
+		found := false
+		ast.Inspect(fd.Body, func(n ast.Node) bool {
+			rs, ok := n.(*ast.RangeStmt)
+			if !ok {
+				return true
+			}
+			if id, ok := ast.Unparen(rs.X).(*ast.Ident); !ok || info.ObjectOf(id) != prms[0] {
+				return true
+			}
+			k, ok1 := rs.Key.(*ast.Ident)
+			v, ok2 := rs.Value.(*ast.Ident)
+			if !ok1 || !ok2 {
+				return true
+			}
+			ast.Inspect(rs.Body, func(m ast.Node) bool {
+				if as, ok := m.(*ast.AssignStmt); ok && len(as.Lhs) == 1 && len(as.Rhs) == 1 {
+					if ix, ok := as.Lhs[0].(*ast.IndexExpr); ok {
+						if ki, ok := ast.Unparen(ix.Index).(*ast.Ident); ok && info.ObjectOf(ki) == info.ObjectOf(k) {
+							if vi, ok := ast.Unparen(as.Rhs[0]).(*ast.Ident); ok && info.ObjectOf(vi) == info.ObjectOf(v) {
+								found = true
+							}
+						}
+					}
+				}
+				return true
+			})
+			return true
+		})
+		return found
+	}
+	return false
 }
